@@ -408,8 +408,8 @@ def run(ctx):
         if ok:
             built, _ = ctx.coq(TARGETS, theorems_in={"Props/C15"})
         n = 0
-        for _ in range(1 if quick else 12):
-            n += run_cases(ctx, 300 if quick else 800, with_model=bool(ok and built))
+        for _ in range(1 if quick else 6):
+            n += run_cases(ctx, 300 if quick else 700, with_model=bool(ok and built))
     if not (ok and built):
         ctx.obligation("correspondence:model-runs", False, "model not available")
     ctx.coverage.update({"exhaustive": False, "finder_violations": n,
